@@ -24,7 +24,11 @@ ConfOf(e) ==
    hasRpm |-> [f \in FanIds(e.fans) |-> FanOf(e.fans, f).hasRpm],
    cfgMap |-> [f \in FanIds(e.fans) |-> FanOf(e.fans, f).cfgMap],
    cfgMinMax |-> [f \in FanIds(e.fans) |-> FanOf(e.fans, f).cfgMinMax],
-   parallel |-> e.parallel]
+   parallel |-> e.parallel,
+   \* (the plant, for formulas about what an analysis must find: the fan turns iff pwm > theta, its register keeps multiples of quant and 255)
+   theta |-> [f \in FanIds(e.fans) |-> FanOf(e.fans, f).theta],
+   quant |-> [f \in FanIds(e.fans) |-> FanOf(e.fans, f).quant],
+   cfgStart |-> [f \in FanIds(e.fans) |-> FanOf(e.fans, f).cfgStart]]
 
 \* state after a "Begin" event (a process start); newTrace: the database history starts afresh
 BeginState(e, newTrace) ==
@@ -179,6 +183,15 @@ C15_StartStores ==
        \A f \in cf.fans :
           /\ (cnt[f].sweeps > 0 /\ reg[f] => db'[f].map)
           /\ (cnt[f].meas > 0 /\ reg[f] => db'[f].data)]_mvars
+\* C13 on a real analysis: the start PWM that the initialization sequence derives (reported by the "Attached" hook) is the
+\* lowest value the device supports at which the plant turns - the lowest MEASURED value with a non-zero RPM
+LevelsOf(q) == LET qq == IF q < 1 THEN 1 ELSE q IN {k * qq : k \in 0..(254 \div qq)} \cup {255}
+ExpectedStart(f) == LET S == {v \in LevelsOf(cf.quant[f]) : v > cf.theta[f]} IN CHOOSE v \in S : \A w \in S : v <= w
+C13_AnalysedLimits ==
+  [][(l <= N /\ Trace[l].ev = "Attached" /\ Trace[l].fan \in cf.fans) =>
+       LET f == Trace[l].fan IN
+       (cf.kind[f] = "hwmon" /\ cf.hasRpm[f] /\ ~cf.cfgMinMax[f] /\ ~cf.cfgStart[f] /\ cnt[f].meas > 0 /\ cf.theta[f] < 255 /\ cf.theta[f] >= 0)
+         => Trace[l].a[2] = ExpectedStart(f)]_mvars
 \* C16 at the level of the device: while a fan is being swept or measured no OTHER fan's PWM is written, unless that
 \* other fan is regulating (its control loop runs) or is being handed back - analysis steps that bypass the hook points
 \* (a measurement restarted outside the initialization sequence, ...) still show as register writes
